@@ -583,6 +583,62 @@ def clock_rule(ctx, rid):
     ctx.ob(rid, fn, rets[0], not bad, 'unit of clockGetMillis', '; '.join(bad) or 'milliseconds for all 32 readings')
 
 
+def r11(ctx):
+    ctx.rule('C14.R11', 'a symbol that was decoded from the buffer is handed out: in handleEnhancedBufferedData, once the pending '
+             'symbol is set (valueSet = true with *value stored) no path of the same call clears the flag or stores another '
+             'symbol over it - every frame that would do so (RECEIVED, STARTED, FAILED, RESETTED) is deferred to the next call '
+             'instead. Otherwise the symbols delivered depend on whether a frame arrives in the same read chunk as the symbol '
+             'before it', minimum=3)
+    fb = ctx.fb
+    fn = fb.fn(DEC)
+    ctx.touch(fn)
+    flags = [d for nid, d, rhs, op, lhs in fn.assignments() if op == 'init' and d and rhs is not None and fn.val(rhs) == 0 and
+             any(d2 == d and r2 is not None and fn.val(r2) == 1 for _, d2, r2, _, _ in fn.assignments()) and
+             any(fn.key(fn.nodes[r].get('val', -1)).find(d.split(':')[-1]) >= 0 for r in fn.all('ReturnStmt') if fn.nodes[r].get('val') is not None)]
+    vp = fn.P(2)
+    stores0 = [nid for nid, d, rhs, op, lhs in fn.assignments() if lhs is not None and fn.key(lhs) == '*' + vp]
+    cands = []
+    for d in flags:
+        # the flag that is set next to the stores to *value
+        sets = [nid for nid, d2, rhs, op, lhs in fn.assignments() if d2 == d and rhs is not None and fn.val(rhs) == 1]
+        near = sum(1 for x in sets if any(fn.block_of(x) == fn.block_of(y) for y in stores0))
+        cands.append((near, d))
+    if not cands or sorted(cands)[-1][0] == 0:
+        raise AnalysisBroken('C14.R11: pending-symbol flag not found')
+    flag = sorted(cands)[-1][1]
+    fname = flag.split(':')[-1]
+    set_true = set(nid for nid, d, rhs, op, lhs in fn.assignments() if d == flag and op == '=' and rhs is not None and fn.val(rhs) == 1)
+    set_false = set(nid for nid, d, rhs, op, lhs in fn.assignments() if d == flag and op == '=' and rhs is not None and fn.val(rhs) == 0)
+    stores = set(nid for nid, d, rhs, op, lhs in fn.assignments() if lhs is not None and fn.key(lhs) == '*' + vp)
+    bad = {}
+
+    def on_elem(user, e, path):
+        if e in stores and user == 'set':
+            bad.setdefault(e, 'stores another symbol over the pending one')
+        if e in set_false:
+            if user == 'set':
+                bad.setdefault(e, 'clears the flag of a pending symbol')
+            return 'unset'
+        if e in set_true:
+            return 'set'
+        return user
+
+    def on_edge(user, b, j, dnf):
+        for conj in dnf:
+            ok = True
+            for a in conj:
+                k, p = facts.atom_key(fn, a)
+                if k == fname and ((user == 'set') != bool(p)):
+                    ok = False
+            if ok:
+                return user
+        return None
+    facts.Explorer(fn, on_elem=on_elem, on_edge=on_edge).run(fn.entry, 0, 'unset')
+    for e in sorted(stores | set_false):
+        ctx.ob('C14.R11', fn, e, e not in bad, 'pending symbol at %s' % ('a store to *%s' % vp if e in stores else '%s = false' % fname),
+               bad.get(e, 'not reachable with a pending symbol'))
+
+
 def run(ctx):
     clock_rule(ctx, 'C14.R10')
     overflow_threshold_rule(ctx, 'C14.R9')
@@ -593,3 +649,4 @@ def run(ctx):
     r6(ctx)
     r7(ctx)
     r8(ctx)
+    r11(ctx)
